@@ -514,14 +514,16 @@ class CFG:
             val._trim_cache[bottomup_only] = val
             return val
 
-        T = {self.S}
+        T = {self.S} if self.S in C else set()
         agenda.update(T)
         while agenda:
             x = agenda.pop()
             for e in incoming[x]:
-                # assert e.head in T
+                # only follow rules that survive the bottom-up pass
+                if not all((b in C) for b in e.body):
+                    continue
                 for b in e.body:
-                    if b not in T and b in C:
+                    if b not in T:
                         T.add(b)
                         agenda.add(b)
 
